@@ -395,6 +395,14 @@ func c06Pairing(c *Ctx) {
 							transferred = true
 						}
 					}
+					// … or handed out wrapped in a composite value built from it
+					if reader != nil {
+						for s := range backSlice(rv, func(v ssa.Value) bool { _, isCall := v.(*ssa.Call); return isCall && v != ssa.Value(call) }) {
+							if s == reader {
+								transferred = true
+							}
+						}
+					}
 				}
 			}
 			if transferred {
@@ -411,6 +419,14 @@ func c06Pairing(c *Ctx) {
 				for s := range sourcesOf(v) {
 					if s == reader {
 						return true
+					}
+				}
+				// a field of the struct the acquirer returned
+				for s := range backSlice(v, func(x ssa.Value) bool { _, isCall := x.(*ssa.Call); return isCall }) {
+					if s == reader {
+						if _, isStruct := reader.Type().Underlying().(*types.Struct); isStruct {
+							return true
+						}
 					}
 				}
 				return false
